@@ -195,7 +195,7 @@ PROPS = {
     },
     "C12": {
         "chain": [chain("stream", 24, 25, 300, 40), chain("all", 16, 25, 200, 40)],
-        "pure": [{"kinds": ["dur", "claim", "valfee", "addsec"], Q: 2000, T: 200000}],
+        "pure": [{"kinds": ["dur", "claim", "valfee", "addsec", "strparams"], Q: 2000, T: 200000}],
         "corpus": ["witness", "regress"],
         "relevant": rel_kinds(("I", "K", "B", "E", "D str."), lambda k: k.startswith("str.")),
         "level_text": "Proof: c12_arithmetic_never_panics (CalculateValidatorFee total for every amount and fee in [0,1]; duration and claim arithmetic are total functions), c12_claim_succeeds and c12_cancel_succeeds (for every funded stream in every state of every run the claim / the sender's cancel returns ok), c12_topup_succeeds (every top-up the non-vesting sender holds the coins for returns ok, on a running stream and on one that has run out, within the module's 292-year limit per top-up), c12_fee_rate_always_valid.",
